@@ -90,6 +90,15 @@ all_reference_ids: Set[str] = set()
 def managed_provide_cache(provide_id: str) -> Generator[None, None, None]:
     all_reference_ids_before = all_reference_ids.copy()
 
+    # The provider holds a reference to its own data for as long as its body is being rendered.
+    # Otherwise, when several components share the provider and the first one of them finishes
+    # rendering (and so unregisters itself as the last known reference) before the next one has
+    # started, the provided data would be dropped while it is still needed.
+    if provide_id not in provide_references:
+        provide_references[provide_id] = set()
+    provide_references[provide_id].add(provide_id)
+    all_reference_ids.add(provide_id)
+
     def cache_cleanup() -> None:
         # Lastly, remove provided data from the cache that was generated during this run,
         # IF there are no more references to it.
@@ -116,6 +125,8 @@ def managed_provide_cache(provide_id: str) -> Generator[None, None, None]:
         # Forward the error
         raise e from None
 
+    # The body is rendered, from now on only the components that are yet to be rendered keep the data alive
+    unregister_provide_reference(provide_id)
     # Cleanup
     cache_cleanup()
 
